@@ -58,6 +58,7 @@ def setGlobAttr (g : Glob) (k v : String) : Option Glob :=
   | "hwid" => (parseHex v).bind (fun m => if m.length > 255 then none else some { g with hwid := m })
   | "icon" => if v == "none" then some { g with icon := none } else (parseBlob v).map (fun m => { g with icon := some m })
   | "failsize" => (parseDec v).bind (fun n => if n > 1000000 then none else some g)      -- what a FAILING icon / name query leaves in its size output: a failure all the same
+  | "recycle" => if v == "on" || v == "off" then some g else none            -- the allocator hands freed blocks back as their last owner left them: the model has no memory content
   | "memcmprep" => if v == "wide" || v == "byte" then some g else none      -- the magnitude of lltd_port_memcmp's answer: only its sign is specified
   | "sendok" => if v == "len" || v == "zero" then some g else none          -- what a successful transmit returns (never negative): accepted all the same
   | "mtuclobber" => (parseDec v).bind (fun n => if n > 65535 then none else some g)    -- what a FAILING MTU query leaves in its output: the fallback is used all the same
